@@ -80,3 +80,50 @@ func walkDefinition(ev *Events, tag string, d *ast.Definition) {
 		walkDirectives(ev, v.Directives)
 	}
 }
+
+// WithoutDescriptions blanks the description carried by definition events (for
+// formatter runs with descriptions switched off).
+func WithoutDescriptions(ev Events) Events {
+	out := append(Events(nil), ev...)
+	for i := range out {
+		switch out[i].Tag {
+		case "SCHEMA", "DESC":
+			out[i].A = ""
+		case "DIRDEF", "ARGDEF", "FIELDDEF", "ENUMVAL":
+			out[i].B = ""
+		}
+	}
+	return out
+}
+
+// MergeSchemaDefs folds all schema definitions into one and all schema extensions into one
+// (descriptions concatenated, directives first, then operation types, each in source order):
+// the form the printer writes them in. A round trip is compared modulo this.
+func MergeSchemaDefs(ev Events) Events {
+	var out Events
+	i := 0
+	for _, tag := range []string{"SCHEMA", "XSCHEMA"} {
+		var desc string
+		var dirs, ops Events
+		n := 0
+		for i < len(ev) && ev[i].Tag == tag {
+			desc += ev[i].A
+			n++
+			i++
+			for i < len(ev) && ev[i].Tag != "SCHEMA" && ev[i].Tag != "XSCHEMA" && ev[i].Tag != "DIRDEF" && ev[i].Tag != "DEF" && ev[i].Tag != "XDEF" {
+				if ev[i].Tag == "OPTYPE" {
+					ops = append(ops, ev[i])
+				} else {
+					dirs = append(dirs, ev[i])
+				}
+				i++
+			}
+		}
+		if n > 0 {
+			out = append(out, Event{tag, desc, ""})
+			out = append(out, dirs...)
+			out = append(out, ops...)
+		}
+	}
+	return append(out, ev[i:]...)
+}
